@@ -5,6 +5,8 @@ import sys, os, shutil, json, glob
 name, prop, needs, ran, verdict = sys.argv[1:6]
 src = sys.argv[6] if len(sys.argv) > 6 else prop
 d = f"/verif/seeded/{name}"
+if os.path.exists(os.path.join(d, "meta.json")):
+    sys.exit(f"a seed named {name} exists already (a duplicate change?): choose another name or skip it")
 os.makedirs(d, exist_ok=True)
 shutil.copy(f"/tmp/wt/{src}.patch.diff", f"{d}/patch.diff")
 for f in glob.glob(f"/tmp/wt/{src}.demo/**", recursive=True):
